@@ -262,6 +262,9 @@ impl Runner {
             model.trades_in_block.push((0, 0));
             model.settlements.push(0);
         }
+        if cfg.kind == WorldKind::FeedOnly {
+            model.feed.push(vec![]);
+        }
         let mut ev = Ev::default();
         ev.property = prop.to_string();
         // harness self-check: the raw census agrees with the public balance queries
